@@ -4,6 +4,7 @@ import (
 	"bytes"
 	"encoding/json"
 	"reflect"
+	"sort"
 	"strconv"
 
 	"github.com/bytedance/sonic/decoder"
@@ -102,4 +103,10 @@ func mapMergeEmulate(t reflect.Type, doc []byte, unmarshal func([]byte, interfac
 		m.SetMapIndex(key, elem.Elem())
 	}
 	return m, true
+}
+
+func sortedBytes(b []byte) string {
+	c := append([]byte{}, b...)
+	sort.Slice(c, func(i, j int) bool { return c[i] < c[j] })
+	return string(c)
 }
